@@ -97,6 +97,7 @@ Inductive wop (T : Type) :=
 | WNeg (self tmp : elem) | WPos (self tmp : elem)
 | WCopyLeaf (self tmp : nat)
 | WIPow (generic_copy : bool) (self : elem) (p : nat) (tmp one_tmp : elem)
+| WIPowNeg (generic_copy : bool) (self : elem) (p : nat) (tmp one_tmp one2 : elem)   (* x **= -p *)
 | WBcast (inplace : bool) (k : bkind) (sp0 : space) (parts : elems) (other : elem) (tmps : elems).
 Arguments WLincomb1 {T}. Arguments WLincomb2 {T}. Arguments WMultiply {T}. Arguments WDivide {T}.
 Arguments WAssign {T}. Arguments WCopy {T}. Arguments WSetZero {T}.
@@ -105,7 +106,7 @@ Arguments WISub {T}. Arguments WSub {T}. Arguments WISubS {T}. Arguments WSubS {
 Arguments WRSub {T}. Arguments WRSubS {T}. Arguments WIMulS {T}. Arguments WMulS {T}.
 Arguments WIMul {T}. Arguments WMul {T}. Arguments WITrueDivS {T}. Arguments WTrueDivS {T}.
 Arguments WITrueDiv {T}. Arguments WTrueDiv {T}. Arguments WRTrueDiv {T}. Arguments WRTrueDivS {T}.
-Arguments WNeg {T}. Arguments WPos {T}. Arguments WCopyLeaf {T}. Arguments WIPow {T}. Arguments WBcast {T}.
+Arguments WNeg {T}. Arguments WPos {T}. Arguments WCopyLeaf {T}. Arguments WIPow {T}. Arguments WIPowNeg {T}. Arguments WBcast {T}.
 
 Record caseW (T : Type) := mkW {
   w_sp : space;
@@ -181,6 +182,12 @@ Definition run_wop (sp : space) (o : wop T) : store T -> outcome T :=
       w_ipow flg bdtf icast (S p)
         (if g then w_copy flg bdtf icast sp else fun x t => w_copy_leaf (leaf_id x) (leaf_id t))
         sp self p tmp one_tmp
+  | WIPowNeg g self p tmp one_tmp one2 =>
+      (* self **= -p  is  self **= p; self.space.divide(self.space.one(), self, out=self) *)
+      seq (w_ipow flg bdtf icast (S p)
+             (if g then w_copy flg bdtf icast sp else fun x t => w_copy_leaf (leaf_id x) (leaf_id t))
+             sp self p tmp one_tmp)
+          (with_one one2 (w_divide sp one2 self self))
   | WBcast inplace k sp0 parts other tmps =>
       if inplace then bcast1 (fun x => run_b true k sp0 other x x) parts
       else bcast2 (run_b false k sp0 other) parts tmps
